@@ -623,10 +623,19 @@ func (s *socket) Close(discard bool) {
 
 	if length := s.writeBuffer.Len(); length > 0 {
 		socket_log.Debug("there are %d remaining packets in the buffer, waiting for the 'drain' event", length)
-		s.Once("drain", func(...any) {
+		var onDrain types.Listener
+		onDrain = func(...any) {
+			// the drain may be that of an earlier batch (Close called from a listener
+			// of that batch's "flush" event, after a Send): the packets that are still
+			// buffered go out first
+			if s.writeBuffer.Len() > 0 {
+				s.Once("drain", onDrain)
+				return
+			}
 			socket_log.Debug("all packets have been sent, closing the transport")
 			s.closeTransport(discard)
-		})
+		}
+		s.Once("drain", onDrain)
 		return
 	}
 
